@@ -308,6 +308,8 @@ type RunOpts struct {
 	Workdir   string
 	KeepSMT   bool
 	Verbose   bool
+	NoRetry   bool // selftest: a mutant counts as detected by its first-pass failures; only negative controls are retried
+	NoRelaxed bool // selftest: no search for candidate counterexamples
 }
 
 // relaxedQuery: the obligation's query without quantified assumptions (candidate models only).
@@ -362,10 +364,22 @@ func dischargeAll(obls []*Obligation, opts RunOpts) {
 	// again, few at a time (so that the machine's load cannot be the reason), with three times the
 	// time and other solver seeds. A proof found here is a proof; only an obligation that still has no
 	// verdict is reported. (A `sat` answer is never retried.)
-	sem2 := make(chan struct{}, 3)
+	sem2 := make(chan struct{}, 4)
+	undecided := 0
+	for _, o := range obls {
+		if !o.Cover && o.Ctx != nil && (o.Result.Status == "timeout" || o.Result.Status == "unknown") {
+			undecided++
+		}
+	}
 	for _, o := range obls {
 		if o.Cover || o.Ctx == nil || (o.Result.Status != "timeout" && o.Result.Status != "unknown") {
 			continue
+		}
+		// so many obligations without a verdict is not load: the code no longer matches its contracts
+		// (a rewritten function); retrying each of them would only delay the report
+		retries := 1
+		if undecided > 24 || opts.NoRetry {
+			retries = 0
 		}
 		wg.Add(1)
 		go func(o *Obligation) {
@@ -374,7 +388,7 @@ func dischargeAll(obls []*Obligation, opts RunOpts) {
 			defer func() { <-sem2 }()
 			first := o.Result
 			q := o.query(false)
-			for attempt := 1; attempt <= 2; attempt++ {
+			for attempt := 1; attempt <= retries; attempt++ {
 				res := solveSeeded(q, 3*opts.Timeout, opts.Workdir, fmt.Sprintf("%s.retry%d", o.Name, attempt), opts.Agree, attempt)
 				for k, v := range first.All {
 					res.All[k+"/first"] = v
@@ -391,7 +405,7 @@ func dischargeAll(obls []*Obligation, opts RunOpts) {
 					o.Result.Output = r2.Output
 				}
 			}
-			if o.Result.Status == "timeout" || o.Result.Status == "unknown" {
+			if (o.Result.Status == "timeout" || o.Result.Status == "unknown") && !opts.NoRelaxed {
 				// no verdict: look for a candidate counterexample in the query without its
 				// quantified assumptions; it is reported only as a candidate (replay decides)
 				r2 := solveOne(o.relaxedQuery(), opts.Timeout, opts.Workdir, o.Name+".relaxed")
